@@ -3,7 +3,7 @@ first match.
 
 State graph over receive histories: events "bundle i of the menu arrives" (any
 bundle, repeats allowed) and "the agent runs one pending idle callback", over a
-menu of ten bundles (look-alikes differing in exactly one identity component,
+menu of twelve bundles (look-alikes differing in exactly one identity component,
 a fragment pair, own-source, administrative-endpoint, forward and no-route
 destinations) and five routing tables.  A reference router with identity
 memory predicts deliveries and transmissions.'''
@@ -46,7 +46,15 @@ def menu():
         ('admin-endpoint', mk(NODE, 'dtn://src/', (T, 5), flags=B.FLAG_ADMIN, data=admin_payload(0))),
         ('forward', mk('dtn://far/x', 'dtn://src/', (T, 6), data=b'FWD', **rq)),
         ('no-route', mk('ipn:9.9', 'dtn://src/', (T, 7), data=b'NOR', **rq)),
+        # forwarded by the receive tables but without a transmit route: the forwarding attempt fails
+        ('forward-no-tx-route', mk('dtn://lost/x', 'dtn://src/', (T, 8), data=b'LOST', **rq)),
+        # the node's own endpoint, payload not flagged as an administrative record
+        ('node-endpoint-plain', mk(NODE, 'dtn://src/', (T, 10), data=b'PLAIN')),
     ]
+
+
+# every destination except dtn://lost/... has a transmit route
+TX_ROUTES = [('^(?!dtn://lost/).*', 'dtn://next/', None)]
 
 
 MENU = menu()
@@ -104,7 +112,7 @@ class RefRouter(object):
                             self.delivered.append(base)
             else:
                 self.delivered.append(idn)
-        elif action == 'forward':
+        elif action == 'forward' and not pri['dest'].startswith('dtn://lost/'):
             self.forwarded.append(idn)
 
 
@@ -128,7 +136,7 @@ def solo_reports(table, idx):
     when that bundle is all it ever receives.'''
     key = (table, idx)
     if key not in _SOLO:
-        w = BpWorld(dict(node_id=NODE, rx_routes=TABLES[table], tx_routes=[('.*', 'dtn://next/', None)]))
+        w = BpWorld(dict(node_id=NODE, rx_routes=TABLES[table], tx_routes=TX_ROUTES))
         w.receive(ENC[idx])
         w.quiesce()
         _SOLO[key] = reports_of(w)
@@ -137,7 +145,7 @@ def solo_reports(table, idx):
 
 class HistWorld(BpWorld):
     def __init__(self, params):
-        prm = dict(node_id=NODE, rx_routes=TABLES[params['table']], tx_routes=[('.*', 'dtn://next/', None)])
+        prm = dict(node_id=NODE, rx_routes=TABLES[params['table']], tx_routes=TX_ROUTES)
         BpWorld.__init__(self, prm)
         self.params.update(params)
         self.depth = 0
@@ -273,13 +281,13 @@ def _check_state(self):
 HistWorld.check_state = _check_state
 
 ASSUMPTIONS = [
-    'receive histories of at most 3 (quick) / 4 (thorough) bundles from a menu of ten, idle callbacks interleaved in every order',
+    'receive histories of at most 3 (quick) / 4 (thorough) bundles from a menu of twelve, idle callbacks interleaved in every order',
     'routing patterns are matched with re.match (anchored at the start) as the configuration loader compiles them',
     'a bundle addressed to the node\'s own administrative endpoint is delivered whatever the table says',
     'four menu bundles request every status report towards a routed report-to endpoint; the reports expected for a history are those a fresh agent emits for the first copy of each identity alone (differential reference), as an upper bound in every state and exactly when quiescent',
 ]
 
-RULE = ('explicit-state search by replay on fresh real agents: all receive histories up to the depth bound over ten '
+RULE = ('explicit-state search by replay on fresh real agents: all receive histories up to the depth bound over twelve '
         'bundles x five routing tables with idle callbacks interleaved; a reference router with identity memory decides '
         'expected deliveries/transmissions; compared exactly in every quiescent state, as an upper bound in every state')
 
